@@ -15,10 +15,10 @@ import (
 
 type kase struct {
 	Kind    string `json:"kind"`
-	Name    string `json:"name,omitempty"`    // built-in
-	Def     string `json:"def,omitempty"`     // definition letters
-	Cased   bool   `json:"cased,omitempty"`   // case sensitive
-	S       string `json:"s,omitempty"`       // pairing definition
+	Name    string `json:"name,omitempty"`  // built-in
+	Def     string `json:"def,omitempty"`   // definition letters
+	Cased   bool   `json:"cased,omitempty"` // case sensitive
+	S       string `json:"s,omitempty"`     // pairing definition
 	C       string `json:"c,omitempty"`
 	Letters []byte `json:"letters,omitempty"` // AllValid input
 }
